@@ -53,48 +53,56 @@ def has_mid(c):
     return any(any(t["drain"]) or any(t["alive"]) for t in c["ticks"])
 
 
-def tick_alphabet(n, mid):
-    """per tick: any subset of workers dies x {none, hup, file, hup+file} x {no int, int first, term last}"""
+def tick_alphabet(n, reduced):
+    """events of one sleep: any subset of workers dies x reload requests x shutdown signal.
+    full: reload in {none, SIGHUP, SIGHUP+file change}, signal in {none, SIGINT first, SIGTERM last};
+    reduced (histories that also get a mid-tick injection): reload in {none, SIGHUP}, signal in {none, SIGINT first}.
+    Returns (events, stops) - a tick with SIGINT/SIGTERM makes the manager return, so the history ends there."""
     out = []
     for deaths in itertools.product([0, 1], repeat=n):
         d = [["die", i] for i in range(n) if deaths[i]]
-        for rl in ([], [["hup"]], [["file"]], [["hup"], ["file"]]):
-            for it in (0, 1, 2):
-                evs = ([["int"]] if it == 1 else []) + d + rl + ([["term"]] if it == 2 else [])
-                out.append((evs, it != 0))
+        for rl in (([], [["hup"]]) if reduced else ([], [["hup"]], [["hup"], ["file"]])):
+            for it in ((0, 1) if reduced else (0, 1, 2)):
+                out.append((([["int"]] if it == 1 else []) + d + rl + ([["term"]] if it == 2 else []), it != 0))
     return out
 
 
-def mid_alphabet(n):
-    """events placed at one mid-tick point (in the first / second empty() call, or before the j-th is_alive())"""
-    evsets = [[["die", i]] for i in range(n)] + [[["hup"]], [["int"]], [["die", 0], ["int"]]]
-    out = [dict(drain=[], alive=[])]
-    for evs in evsets:
-        out.append(dict(drain=[evs], alive=[]))
-        out.append(dict(drain=[[], evs], alive=[]))
-        for j in range(n):
-            out.append(dict(drain=[], alive=[[] for _ in range(j)] + [evs]))
-    return out
-
-
-def exhaustive_cases(n, mf, depth, mid):
-    """all histories up to `depth` ticks (a tick containing SIGINT/SIGTERM ends the history: the manager returns)"""
-    alpha = tick_alphabet(n, mid)
-    mids = mid_alphabet(n) if mid else [dict(drain=[], alive=[])]
-    full = [(dict(sleep=evs, drain=m["drain"], alive=m["alive"]), stop and not m["drain"] and not m["alive"])
-            for evs, stop in alpha for m in mids]
+def sleep_histories(n, depth, reduced):
+    alpha = tick_alphabet(n, reduced)
 
     def rec(prefix, d):
         if d == 0:
             yield prefix
             return
-        for t, stop in full:
+        for evs, stop in alpha:
+            t = dict(sleep=evs, drain=[], alive=[])
             if stop:
                 yield prefix + [t]
             else:
                 yield from rec(prefix + [t], d - 1)
-    for h in rec([], depth):
+    return rec([], depth)
+
+
+def exhaustive_sleep(n, mf, depth):
+    """every history of at most `depth` ticks whose events all fall inside the sleeps"""
+    for h in sleep_histories(n, depth, False):
         yield dict(n=n, mf=mf, p0=100, ticks=h)
+
+
+def exhaustive_mid(n, mf, depth):
+    """every (reduced-alphabet) history of at most `depth` ticks x one mid-tick injection: tick t, point in
+    {1st empty() call, 2nd empty() call, before the j-th is_alive() of start()}, events in
+    {one death, SIGHUP, SIGINT, death+SIGINT}"""
+    evsets = [[["die", i]] for i in range(n)] + [[["hup"]], [["int"]], [["die", 0], ["int"]]]
+    points = [("drain", 0), ("drain", 1)] + [("alive", j) for j in range(n)]
+    for h in sleep_histories(n, depth, True):
+        for t in range(len(h)):
+            for kind, k in points:
+                for evs in evsets:
+                    h2 = [dict(x) for x in h]
+                    h2[t] = dict(h[t])
+                    h2[t][kind] = [[] for _ in range(k)] + [evs]
+                    yield dict(n=n, mf=mf, p0=100, ticks=h2)
 
 
 # --------------------------------------------------------------------------- Coq literals
@@ -332,6 +340,8 @@ def count_case(rep, c, o):
                         rep.count("branch:budget-exhausted")
                     else:
                         rep.count("branch:reload-deduplicated")
+                        if not e[3]:
+                            rep.count("branch:failure-reload-deduplicated")
             elif e[0] == "kill":
                 rep.count("branch:shutdown-kill")
     for p in o["puts"]:
@@ -346,7 +356,7 @@ def count_case(rep, c, o):
 
 
 # --------------------------------------------------------------------------- the run
-def explore(ctx, rep, pid, cases, label, shard=300):
+def explore(ctx, rep, pid, cases, label, shard=300, coq=True):
     """implementation run + direct oracle of `pid` + correspondence (whole trace, outcome, final state)"""
     obs = C.run_driver(ctx, "pm_driver", cases)
     lits, keep = [], []
@@ -366,6 +376,8 @@ def explore(ctx, rep, pid, cases, label, shard=300):
             keep.append(c)
         except ValueError:
             nbad += 1      # observation outside the model's vocabulary: counts as a correspondence failure
+    if not coq:            # failing-input search: implementation + direct oracle only
+        return False
     bad, fails, _ = C.coq_eval(ctx, label, COQ_HEADER, lits, COQ_BODY, shard=shard)
     if nbad:
         fails = fails + ["%d observations not expressible in the model (start() raised / unexpected return)" % nbad]
@@ -381,23 +393,33 @@ def run(ctx, pid, meta):
     broken = explore(ctx, rep, pid, corpus, "corpus") if corpus else False
     r = ctx.sub_rng("gen")
     cases = [gen_case(r) for _ in range(ctx.n(1500, 50000))]
-    broken |= explore(ctx, rep, pid, cases, "random")
+    broken |= explore(ctx, rep, pid, cases, "random", shard=100)
     if not ctx.quick:
         rep.exhaustive = True
-        for n in (1, 2, 3):
-            for mid in (False, True):
-                depth = thorough_depth(n, mid)
-                ex = [c for mf in (-1, 0, 1, 2, 3) for c in exhaustive_cases(n, mf, depth, mid)]
-                rep.extra["exhaustive_n%d_%s" % (n, "mid" if mid else "sleep")] = dict(depth=depth, histories=len(ex))
-                broken |= explore(ctx, rep, pid, ex, "exh_n%d_%s" % (n, "mid" if mid else "sleep"), shard=2000)
+        for fam, n, depth in THOROUGH[pid]:
+            gen = exhaustive_sleep if fam == "sleep" else exhaustive_mid
+            it = (c for mf in (-1, 0, 1, 2, 3) for c in gen(n, mf, depth))
+            total, k = 0, 0
+            while True:
+                batch = list(itertools.islice(it, 40000))
+                if not batch:
+                    break
+                broken |= explore(ctx, rep, pid, batch, "exh_%s_n%d_d%d_%d" % (fam, n, depth, k), shard=2500)
+                total += len(batch)
+                k += 1
+            rep.extra["exhaustive_%s_n%d" % (fam, n)] = dict(depth=depth, max_fails=[-1, 0, 1, 2, 3], histories=total)
     if (broken or any(not ob["ok"] for ob in rep.obligations)) and not rep.failures:
         r2 = ctx.sub_rng("search")
-        explore(ctx, rep, pid, [gen_case(r2) for _ in range(ctx.n(15000, 100000))], "search")
+        explore(ctx, rep, pid, [gen_case(r2) for _ in range(ctx.n(15000, 100000))], "search", coq=False)
     return rep.finish()
 
 
-def thorough_depth(n, mid):
-    return {(1, False): 4, (2, False): 4, (3, False): 3, (1, True): 3, (2, True): 2, (3, True): 2}[(n, mid)]
+# exhaustive families of the thorough tier (family, workers, depth).  Same model and driver for both properties:
+# C17 carries the deep sleep-event family, C18 the deep mid-tick family, each also runs the other one shallower.
+THOROUGH = {
+    "C17": [("sleep", 1, 4), ("sleep", 2, 4), ("sleep", 3, 3), ("mid", 1, 2), ("mid", 2, 2), ("mid", 3, 1)],
+    "C18": [("mid", 1, 3), ("mid", 2, 3), ("mid", 3, 2), ("sleep", 1, 3), ("sleep", 2, 3), ("sleep", 3, 2)],
+}
 
 
 def replay(ctx, pid, path):
